@@ -114,10 +114,48 @@ def small_scope(smt2, timeout_ms=10000):
     s.add(*out)
     r = s.check()
     if r == z3.sat:
-        m = s.model()
-        model = "; ".join(f"{d.name()}={m[d]}" for d in sorted(m.decls(), key=lambda d: d.name()) if not d.name().startswith("ssk!"))[:6000]
-        return "sat", model
+        import json
+
+        return "sat", json.dumps(model_dict(s.model(), z3))
     return ("unsat-in-scope" if r == z3.unsat else "unknown"), ""
+
+
+def model_dict(m, z3, rng=48):
+    """JSON-able sample of a model: constants, arrays and unary int functions evaluated on a small index range"""
+    out = {"consts": {}, "arrays": {}, "funcs": {}}
+    for d in m.decls():
+        name = d.name()
+        if name.startswith("ssk!"):
+            continue
+        try:
+            if d.arity() == 0:
+                c = d()
+                if z3.is_array(c):
+                    vals = {}
+                    for i in range(-2, rng):
+                        v = m.eval(z3.Select(c, z3.IntVal(i)), model_completion=True)
+                        vals[i] = _pyval(v, z3)
+                    out["arrays"][name] = vals
+                else:
+                    out["consts"][name] = _pyval(m.eval(c, model_completion=True), z3)
+            elif d.arity() == 1 and d.domain(0) == z3.IntSort():
+                vals = {}
+                for i in range(-2, rng):
+                    vals[i] = _pyval(m.eval(d(z3.IntVal(i)), model_completion=True), z3)
+                out["funcs"][name] = vals
+        except Exception:
+            continue
+    return out
+
+
+def _pyval(v, z3):
+    if z3.is_int_value(v):
+        return v.as_long()
+    if z3.is_true(v):
+        return True
+    if z3.is_false(v):
+        return False
+    return str(v)
 
 
 def solve_one(job):
@@ -149,8 +187,9 @@ def solve_one(job):
         return key, "unsat", "z3", time.time() - t0, ""
     if r == z3.sat:
         try:
-            m = s.model()
-            model = "; ".join(f"{d.name()}={m[d]}" for d in sorted(m.decls(), key=lambda d: d.name()) if "!" not in d.name() or True)[:4000]
+            import json
+
+            model = json.dumps(model_dict(s.model(), z3))
         except Exception:
             model = ""
         return key, "sat", "z3", time.time() - t0, model
